@@ -75,12 +75,19 @@ should_fail(size_t sz)
 		return false;
 	if (A.fail_k > 0 && A.count == A.fail_k) {
 		if (getenv("SIM_TRACE_FAULT") != NULL) {
+			// SIM_TRACE_FAULT=/path appends to that file (a run's stderr is only kept on a crash)
 			void *fr[NFRAMES];
+			const char *tf = getenv("SIM_TRACE_FAULT");
+			FILE *o = tf[0] == '/' ? fopen(tf, "a") : stderr;
+			if (o == NULL)
+				o = stderr;
 			walk(fr);
-			fprintf(stderr, "FAULT alloc #%lld size %zu at", (long long) A.count, sz);
+			fprintf(o, "FAULT alloc #%lld size %zu at", (long long) A.count, sz);
 			for (int k = 0; k < NFRAMES && fr[k]; k++)
-				fprintf(stderr, " %p", fr[k]);
-			fprintf(stderr, "\n");
+				fprintf(o, " %p", fr[k]);
+			fprintf(o, "\n");
+			if (o != stderr)
+				fclose(o);
 		}
 		A.fault_hit++;
 		A.fault_seq  = A.count;
